@@ -7,11 +7,13 @@ Only property theorems, non-vacuity examples and counterexample theorems live he
 trace predicates of `Spec.E30Comm`.  "For all histories" is the universally quantified `h : List Input`; both roles and every
 set of user callbacks are covered by the universally quantified `cfg`.
 
-Two behaviours of the shipped code are ruled out by the property text and recorded as findings (proposals/C07-*.md):
-an S1F14 is accepted whatever its system bytes (`cfg.sysChecked = false`), and an inbound S1F13 establishes communication even
-when `on_commack_requested()` refused it (`cfg.commackGate = false`; reachable only through a subclass).  The full theorem is
-stated for every variant; for the shipped variant it specialises to the `_partial` statement, and the two `witness_*`
-theorems exhibit the histories on which the full statement fails for it.
+Two behaviours are ruled out by the property text (proposals/C07-*.md): an S1F14 is accepted whatever its system bytes
+(`cfg.sysChecked = false` — the shipped code, recorded finding c07-s1f14-system-unchecked), and an inbound S1F13 establishes
+communication even when `on_commack_requested()` refused it (`cfg.commackGate = false`; reachable only through a subclass —
+repaired in /repo by a `fix:` commit, so the shipped code is `commackGate = true`).  The full theorem is stated for every
+variant; for the shipped variant it specialises to the `_partial` statement, and the two `witness_*` theorems exhibit the
+histories on which the full statement fails for the defective variants.  The harness detects on every run which variant the
+implementation shows; a variant whose finding is not listed in known_findings.txt is reported as a violation.
 -/
 namespace SecsModel.Props.C07
 open SecsModel SecsModel.Spec.E30Comm SecsModel.Model.GemComm SecsModel.Proofs.GemComm
@@ -50,16 +52,17 @@ theorem established_only_after_exchange (cfg : Cfg) (hs : cfg.sysChecked = true)
     (hc : (run cfg h).1.comm = .communicating) : Justified true (run cfg h).2 :=
   hs ▸ established_only_after_exchange_all cfg hck h hc
 
-/-- what holds for the code as shipped (no system-bytes check, `on_commack_requested()` = 0): the S1F14 that establishes
+/-- what holds for the code as shipped (no system-bytes check; COMMACK gate or `on_commack_requested()` = 0): the S1F14 that establishes
 communication carries COMMACK 0 and arrives on a selected link, but its system bytes are not constrained -/
-theorem established_only_after_exchange_partial (cfg : Cfg) (hs : cfg.sysChecked = false) (h0 : cfg.commackReq = 0)
+theorem established_only_after_exchange_partial (cfg : Cfg) (hs : cfg.sysChecked = false)
+    (hck : cfg.commackGate = true ∨ cfg.commackReq = 0)
     (h : List Input) (hc : (run cfg h).1.comm = .communicating) : Justified false (run cfg h).2 :=
-  hs ▸ established_only_after_exchange_all cfg (Or.inr h0) h hc
+  hs ▸ established_only_after_exchange_all cfg hck h hc
 
 def okHistory : List Input := [.enable, .linkSelected, .rx 1 14 false 0 (some 0), .rx 1 1 true 5 none]
 /-- non-vacuity: a history that ends COMMUNICATING, for the checking variant and for the shipped one -/
 example : (run { sysChecked := true, commackGate := true } okHistory).1.comm = .communicating := by decide +kernel
-example : (run {} okHistory).1.comm = .communicating := by decide +kernel
+example : (run { commackGate := true } okHistory).1.comm = .communicating := by decide +kernel
 example : (run { role := .host } [.enable, .linkSelected, .t3Expired, .delayExpired, .rx 1 13 true 77 none]).1.comm = .communicating := by
   decide +kernel
 
@@ -71,7 +74,7 @@ theorem witness_s1f14_system_unchecked :
     (run { sysChecked := true } h).1.comm = .waitCra := by
   decide +kernel
 
-/-- **Counterexample (shipped variant, subclass with `on_commack_requested() = 1`).**  The inbound S1F13 is answered with
+/-- **Counterexample (variant without the COMMACK gate — the code before its `fix:` commit; subclass with `on_commack_requested() = 1`).**  The inbound S1F13 is answered with
 S1F14/COMMACK 1 and the handler is COMMUNICATING all the same; with the gate it stays in WAIT_CRA. -/
 theorem witness_commack_denied :
     let h : List Input := [.enable, .linkSelected, .rx 1 13 true 77 none]
@@ -83,6 +86,9 @@ theorem witness_commack_denied :
 /-- the `handler_communicating` event (the report) is fired exactly by a step that enters COMMUNICATING -/
 theorem event_only_on_entering (cfg : Cfg) (s : State) (i : Input) (h : Output.evtCommunicating ∈ (step cfg s i).2) :
     (step cfg s i).1.comm = .communicating ∧ s.comm ≠ .communicating := step_event cfg s i h
+
+/-- non-vacuity: the S1F14 that establishes communication is such a step -/
+example : Output.evtCommunicating ∈ (step {} (run {} [.enable, .linkSelected]).1 (.rx 1 14 false 0 (some 0))).2 := by decide +kernel
 
 /-! ## clause 2: an unanswered or refused attempt is retried after the delay -/
 
